@@ -211,8 +211,10 @@ class AppTerm(object):
             a = self.prot.get_cls_attrs(inner)
             if not a.nillable:
                 raise Unmodelled('array element not nillable')
-            base = getattr(cls, '__orig__', None) or cls
-            aid = self.aids.setdefault(base, len(self.aids))
+            if a.min_occurs != 0 or a.max_occurs not in ('unbounded', decimal.Decimal('inf'), float('inf')):
+                raise Unmodelled('array items with occurrence bounds')
+            # _get_xsi_target tells Array classes apart by namespace and type name
+            aid = self.aids.setdefault((cls.get_namespace(), cls.get_type_name()), len(self.aids))
             return '(TArr %d %s)' % (aid, self.ty_of(inner))
         if issubclass(cls, ComplexModelBase):
             base = cls.__orig__ or cls
@@ -244,6 +246,8 @@ class AppTerm(object):
         if issubclass(member, XmlAttribute):
             if getattr(member, 'attribute_of', None) or getattr(member.Attributes, 'attribute_of', None):
                 raise Unmodelled('attribute_of')
+            if self.prot.get_cls_attrs(member.type).nillable != a.nillable:
+                raise Unmodelled('XmlAttribute and wrapped type differ in nillable')
             return '(mkfield %s (TLeaf %s) %s %s %s KAttr)' % (gtext(name), self.leaf_kind(member.type), gz(a.min_occurs),
                                                             gmx, gbool(a.nillable))
         return '(mkfield %s %s %s %s %s KElem)' % (gtext(name), self.ty_of(member), gz(a.min_occurs), gmx, gbool(a.nillable))
